@@ -75,6 +75,7 @@ type Exec struct {
 	specErrs []string
 	pureMemo map[string]pureMemo
 	lastCallName string
+	argTypes map[string]types.Type
 	reassuming bool
 	nscope int
 	prop string
